@@ -165,3 +165,5 @@ func setPairLinks(s *sim.SessSim, p *sim.Pair, fs *sim.FateScript) {
 	s.SetLink(p.Addr[0].String(), p.Addr[1].String(), fs, 0)
 	s.SetLink(p.Addr[1].String(), p.Addr[0].String(), fs, 1)
 }
+
+func keyLenFor(c string) int { return wire.KeyLen(c) }
